@@ -64,7 +64,7 @@ def entry_problems(form, ports):
 
 # ---- lemma ------------------------------------------------------------------------------------------
 
-PORTS = ["0", "1DV", "2"]
+PORTS = ["0", "1DV", "2", "02"]       # "02" is also what the string form of the port set {0, 2} spells: it must stay untouched
 SUBS = [(0,), (1,), (2,), (0, 1), (0, 2), (1, 2), (0, 1, 2)]
 
 
@@ -85,7 +85,7 @@ def wf_lemma(c0: int, c1: int, s0: int, s1: int, n: int, as_list: bool) -> bool:
         else:
             us.append([c, names])
     p = m.average_port_pressure(us)           # must not raise for any WF list
-    ok = len(p) == 3 and all(x >= 0 for x in p) and sum(p) == sum(u[0] for u in us)
+    ok = len(p) == 4 and all(x >= 0 for x in p) and sum(p) == sum(u[0] for u in us) and p[3] == 0
     return verdict(ok, nontrivial=nn > 0, sample=lambda: {"uops": us})
 
 
@@ -341,13 +341,13 @@ def replay_entry(arch, name, k):
 
 # ---- --db-check counts ------------------------------------------------------------------------------
 
-def _dbcheck_concrete(arch):
+def _dbcheck_concrete(arch, verbose=False):
     import re
     import ruamel.yaml
     from osaca.db_interface import sanity_check
     with no_cache():
         out = io.StringIO()
-        sanity_check(arch, output_file=out)
+        sanity_check(arch, verbose=verbose, output_file=out)
     text = out.getvalue()
     raw = ruamel.yaml.YAML(typ="safe").load(open(os.path.join(DATA, arch + ".yml")))
     forms = []
@@ -363,25 +363,29 @@ def _dbcheck_concrete(arch):
         mm = re.search(pat, text)
         got[key] = (int(mm.group(1)), int(mm.group(2))) if mm else None
     ok = all(got[k] == (want[k], len(forms)) for k in want)
-    return ok, True, {"arch": arch, "counts": want, "forms": len(forms)}
+    return ok, True, {"arch": arch, "verbose": verbose, "counts": want, "forms": len(forms)}
 
 
-SMALL = ["n1", "tx2", "zen1"]
+SMALL = ["n1", "tx2", "zen1", "hsw"]       # hsw: many forms without latency, several of them with the same display name
 
 
-def db_check(a: int) -> bool:
+def db_check(a: int, verbose: bool) -> bool:
     """
-    pre: 0 <= a < 3
+    pre: 0 <= a < 4
     post: _
     """
-    ok, nt, sample = native(_dbcheck_concrete, SMALL[pick(a, 3)])
+    from vp.api import shard
+    lo, hi = shard(8)
+    if not (lo <= a * 2 + (1 if verbose else 0) < hi):
+        return True
+    ok, nt, sample = native(_dbcheck_concrete, SMALL[pick(a, 4)], True if verbose else False)
     return verdict(ok, nontrivial=nt, sample=sample)
 
 
 CELLS = {
-    "wf_lemma": {"fn": wf_lemma, "bound": "0-2 micro-ops, cycles 0..1000 symbolic, every port-set pair on a 3-port model with a multi-character port, string and list form", "budget": {"quick": 150, "thorough": 300}},
+    "wf_lemma": {"fn": wf_lemma, "bound": "0-2 micro-ops, cycles 0..1000 symbolic, every port-set pair on a model with a multi-character port and a port whose name ('02') is also the string form of a port set, string and list form", "budget": {"quick": 150, "thorough": 300}},
     "wf_necessity": {"fn": wf_necessity, "bound": "one malformed list per WF clause: negative cycles, unknown port, non-pair, flat list, empty ports", "budget": {"quick": 60, "thorough": 60}},
-    "db_check": {"fn": db_check, "bound": "--db-check summary counts vs counts in the raw YAML for n1, tx2, zen1", "budget": {"quick": 170, "thorough": 300}},
+    "db_check": {"fn": db_check, "bound": "--db-check summary counts (with and without --verbose) vs counts in the raw YAML for n1, tx2, zen1, hsw", "budget": {"quick": 170, "thorough": 300}, "shards": 8},
 }
 for _a in ARCHS + ISAS:
     CELLS["model_" + _a.replace("/", "_")] = {"kind": "smt", "fn": make_model_cell(_a), "replay": replay_entry,
